@@ -5,7 +5,7 @@
    reference after any template is a parse error; an escaped opening marker between plain
    texts is literal text.  The grammar itself is tied to the code by the exhaustive comparison of
    parse trees over {$ { } [ \ : a} (length <= 6 quick, <= 8 thorough) through the Token hook. *)
-From RV Require Import Model.Parser Model.Interp Proofs.ParserFacts Proofs.ParserShape Proofs.ParserNested Proofs.ParserEscapes Proofs.ParserGen Proofs.ParserFull Proofs.ParserAny.
+From RV Require Import Model.Parser Model.Interp Proofs.ParserFacts Proofs.ParserShape Proofs.ParserNested Proofs.ParserEscapes Proofs.ParserGen Proofs.ParserFull Proofs.ParserAny Proofs.WfFacts Proofs.TemplateAny.
 
 (** A string containing no reference marker is not parsed and renders unchanged, as a literal. *)
 Theorem C06_marker_free_string_untouched :
@@ -167,6 +167,28 @@ Proof.
   split; [exact H1|]. split; [exact H2|]. split.
   - apply (empty_reference_after_any_string_is_error 0); [unfold MAX_REF_NESTING; lia | exact H1].
   - apply (unclosed_reference_after_any_string_is_error 0); [unfold MAX_REF_NESTING; lia | repeat split | exact H2].
+Qed.
+
+(** "... renders as the literal text and is never interpreted as a reference": a string of this
+    language all of whose markers are escaped (its pieces join into one text) renders to that text. *)
+Theorem C06_escaped_string_renders_as_its_text :
+  forall root d st u us s,
+    d <= MAX_REF_NESTING -> hunits_ok d (u :: us) -> has_marker (hstr (u :: us)) = true ->
+    coalesce (htok u, map htok us) = [TLit s] ->
+    forall f', 3 <= f' -> interp f' root (VStr (hstr (u :: us))) st = Ok (VLit s, st).
+Proof. exact escaped_string_renders_as_its_text. Qed.
+Eval cbv in "ASSUMPTIONS-OF C06_escaped_string_renders_as_its_text"%string. Print Assumptions C06_escaped_string_renders_as_its_text.
+
+Example C06_escaped_string_nonvacuous :
+  let us := [HText "a" " $ "; HOpen; HText "x" "} "; HInv; HText "q" "] \"] in
+  hstr us = ("a $ " ++ bs ++ "${x} " ++ bs ++ "$[q] \")%string /\ hunits_ok 0 us /\
+  forall root st, interp 3 root (VStr (hstr us)) st = Ok (VLit "a $ ${x} $[q] \", st).
+Proof.
+  cbn zeta.
+  assert (Hok : hunits_ok 0 [HText "a" " $ "; HOpen; HText "x" "} "; HInv; HText "q" "] \"]).
+  { unfold hunits_ok. cbn [hunits_ok_t hok]. repeat split; reflexivity. }
+  split; [reflexivity|]. split; [exact Hok|]. intros root st.
+  apply (escaped_string_renders_as_its_text root 0 st _ _ _ ltac:(unfold MAX_REF_NESTING; lia) Hok eq_refl eq_refl). lia.
 Qed.
 
 (** non-vacuity: a JSON-like template with lone braces, dollars and backslashes at the top level and inside a reference path *)
